@@ -11,8 +11,8 @@ package c13
 import (
 	"encoding/json"
 	"fmt"
-	"os"
 	"math/big"
+	"os"
 	"sort"
 	"strconv"
 	"strings"
@@ -688,11 +688,13 @@ func (rn *runner) fixedCorr(t *tableSpec, o *obs, src string, seed uint64) ([]*b
 	}
 	mw, _ := ratOf(ans.Xs[1])
 	var mcw []*big.Rat
-	same := len(ans.Xs[2].Xs) == len(tb.ColumnWidths) && closeTo(mf(tb.Width), mw)
+	// float32 cancellation in `table.Width - minTableWidth` / `- sumColumnWidths`: the error is relative to the table width
+	scale := float64(mf(tb.Width))
+	same := len(ans.Xs[2].Xs) == len(tb.ColumnWidths) && closeScale(mf(tb.Width), mw, scale)
 	for i, x := range ans.Xs[2].Xs {
 		q, _ := ratOf(x)
 		mcw = append(mcw, q)
-		if same && !closeTo(tb.ColumnWidths[i], q) {
+		if same && !closeScale(tb.ColumnWidths[i], q, scale) {
 			same = false
 		}
 	}
